@@ -171,7 +171,7 @@ def render(cell):
 
 
 def n_cases(tier):
-    return 3000 if tier == "quick" else 40000
+    return 3000 if tier == "quick" else 24000
 
 
 def gen_case(seed, i, tier="quick"):
@@ -415,17 +415,60 @@ def render_b(prog, mode):
     funcs = prog["funcs"]
     for f in funcs[1:]:
         parts.append("function f%d() {\n%s\n}" % (f["id"], _c07.r_block(f["b"], "  ")))
-    if mode == "call":
+    if mode in ("call", "once"):
         parts.append("function f0() {\n%s\n}" % _c07.r_block(funcs[0]["b"], "  "))
         body = "      f0();"
     else:
         body = _c07.r_block(_strip_ret(funcs[0]["b"]), "      ")
-    parts.append("function run(N) {\n  for (var i0=0; i0<N; i0++) {\n    mark(i0);\n    try {\n%s\n    } catch (eb) { pc(0, desc(eb)); }\n  }\n}\nrun(NN);\n\"done\";" % body)
+    if mode == "once":
+        # the N iterations happen inside f0 (its outer loop runs NN times): one activation of f0
+        parts.append("var BIGA=[]; for (var zb=0; zb<NN; zb++) { BIGA.push(zb); }")
+    bound = "1" if mode == "once" else "N"
+    parts.append("function run(N) {\n  for (var i0=0; i0<%s; i0++) {\n    mark(i0);\n    try {\n%s\n    } catch (eb) { pc(0, desc(eb)); }\n  }\n}\nrun(NN);\n\"done\";" % (bound, body))
     return "\n".join(parts)
 
 
+def directed_programs():
+    """Hand-picked shapes of the grammar where an abrupt exit meets an abrupt finally block, a
+    switch or a for-in/for-of iterator -- rare under uniform generation, rich in residue bugs."""
+    P = lambda k: {"t": "p", "k": k}
+    D = lambda k, form="throw_str": {"t": "d", "k": k, "form": form}
+    def TRY(i, b, c=None, f=None): return {"t": "try", "id": i, "b": b, "c": c, "f": f}
+    def LOOP(i, kind, n, b): return {"t": "loop", "id": i, "kind": kind, "n": n, "label": None, "b": b, "nn": i == 1}
+    RET = lambda v: {"t": "ret", "v": v}
+    BRK = lambda loop: {"t": "break", "loop": loop, "label": None, "cond": None}
+    CONT = lambda loop: {"t": "continue", "loop": loop, "label": None, "cond": None}
+    def SW(i, v, cases): return {"t": "switch", "id": i, "v": v, "cases": cases}
+    out = []
+    for kind in ("for", "while", "dowhile", "forin", "forof"):
+        out.append(("ret-in-try/continue-in-finally/" + kind, [[LOOP(1, kind, 3, [TRY(2, [RET(21)], None, [CONT(1)])]), P(3)]], []))
+        out.append(("ret-in-try/break-in-finally/" + kind, [[LOOP(1, kind, 3, [TRY(2, [P(4), RET(22)], None, [BRK(1)])]), P(3)]], []))
+        out.append(("throw-in-try/continue-in-finally/" + kind, [[LOOP(1, kind, 3, [TRY(2, [D(5)], None, [CONT(1)])])]], [0]))
+        out.append(("ret-in-catch/continue-in-finally/" + kind, [[LOOP(1, kind, 2, [TRY(2, [D(5)], [RET(23)], [CONT(1)])])]], [0]))
+        out.append(("switch/continue-in-try-finally/" + kind,
+                    [[LOOP(1, kind, 3, [SW(6, 1, [{"test": 1, "b": [TRY(2, [CONT(1)], None, [P(7)])], "brk": True}, {"test": None, "b": [P(8)], "brk": False}])])]], []))
+        out.append(("nested-iter/ret-through-two-finally/" + kind,
+                    [[LOOP(1, kind, 2, [TRY(2, [LOOP(3, "forof", 2, [TRY(4, [RET(24)], None, [P(9)])])], None, [CONT(1)])])]], []))
+        out.append(("midexpr-throw-in-catch/break-in-finally/" + kind,
+                    [[LOOP(1, kind, 3, [TRY(2, [D(5)], [D(6, "null_prop_mid")], [BRK(1)])])]], [0, 1]))
+    return out
+
+
+_DIRECTED = None
+
+
 def gen_case_b(seed, i, tier):
+    global _DIRECTED
     rng = substream(seed, "c02b", i)
+    if rng.random() < 0.15:
+        if _DIRECTED is None:
+            _DIRECTED = directed_programs()
+        name, funcs, fs = _DIRECTED[rng.randrange(len(_DIRECTED))]
+        prog = {"funcs": [{"id": k, "b": b} for k, b in enumerate(funcs)], "profile": "directed:" + name}
+        nbig = 200 if tier == "quick" else rng.choice((200, 1000))
+        cell = {"stratum": "B", "mode": "once", "nbig": nbig}
+        return {"property": PROPERTY, "seed": seed, "index": i, "cell": cell, "prog": prog, "faults": fs,
+                "world": {"tick": 1e-5, "epoch": 1000.0}, "M": None, "T_work": None, "src": render_b(prog, "once")}
     profile = rng.choice(("full", "nonative", "core", "core_native", "full"))
     outer = rng.random() < 0.5
     prog = _c07.gen_program(rng, profile, outer_loop=outer)
@@ -448,7 +491,7 @@ def gen_case_b(seed, i, tier):
             "world": {"tick": 1e-5, "epoch": 1000.0}, "M": None, "T_work": None, "src": render_b(prog, mode)}
 
 
-def _run_b(src, fs, N, M, cap, sample=False):
+def _run_b(src, fs, N, M, cap, sample=False, always=False):
     from microjs import Context
     W.reset()
     S = W.S
@@ -475,7 +518,7 @@ def _run_b(src, fs, N, M, cap, sample=False):
     def d(*a):
         j = st["n"]
         st["n"] += 1
-        return j in faults
+        return always or (j in faults)
 
     nop = lambda *a: None
     for name, fn in (("p", nop), ("pv", nop), ("pc", nop), ("pf", nop), ("d", d), ("mark", mark)):
@@ -492,7 +535,8 @@ def execute_b(case):
     v = []
     res = {"outcome": None, "work": 0, "elapsed": 0.0, "landing": "", "n_probes": 0, "real_peak": None}
     # 1. residue, monitored while the run proceeds
-    out, samples, lost = _run_b(src, fs, 4, None, 5_000_000, sample=True)
+    always = case["cell"]["mode"] == "once" and bool(fs)   # directed shapes: every decision throws, in every iteration
+    out, samples, lost = _run_b(src, fs, 4, None, 5_000_000, sample=True, always=always)
     work1 = max(1, (out["end_work"] - out["start_work"]) // 4)
     res["outcome"] = out["kind"]
     res["cls"], res["msg"], res["value"] = out.get("cls"), out.get("msg"), out.get("value")
@@ -514,7 +558,7 @@ def execute_b(case):
     lo, hi = 0, 1 << 20
 
     def ok(M, N, cap):
-        o, _, _ = _run_b(src, fs, N, M, cap)
+        o, _, _ = _run_b(src, fs, N, M, cap, always=always)
         return o
     NB = 4   # iterations 0..3 cover every iteration-dependent path (conditions test i0 in {0,1,2})
     cap1 = cap1 * NB
